@@ -2,7 +2,7 @@
    Statements only; proofs are in Proofs/ValidateOverlap.v and Proofs/ValidateRules.v. *)
 From Coq Require Import List NArith ZArith String Bool.
 From GQL Require Import Exec.Syntax Validate.VSyntax Validate.Overlap Validate.OverlapSpec Validate.Rules
-     Exec.Exec Proofs.ValidateOverlap Proofs.ValidateRules Proofs.ValidateMerge Proofs.ValidateMemo.
+     Exec.Exec Proofs.ValidateOverlap Proofs.ValidateRules Proofs.ValidateMerge Proofs.ValidateMemo Proofs.ValidateInputFields Proofs.ValidateArgs.
 Import ListNotations.
 Open Scope string_scope.
 
@@ -46,6 +46,15 @@ Theorem C02_overlap_accepts_valid : forall S D memo fuel,
 Proof. exact L1_accepts_exec. Qed.
 Print Assumptions C02_overlap_accepts_valid.
 
+(* The two-field test as coded (sameArguments looks arguments of the first field up in the
+   second) equals the symmetric closure used above whenever both fields have unique argument
+   names, i.e. on every document that passes UniqueArgumentNames. *)
+Theorem C02_same_arguments_symmetric : forall S ex a b,
+  NoDup (map fst (fe_args a)) -> NoDup (map fst (fe_args b)) ->
+  base_ok S ex a b = base2 S ex a b.
+Proof. exact base_ok_is_base2. Qed.
+Print Assumptions C02_same_arguments_symmetric.
+
 (* L0, merge safety, one level (partial: the recursion into the merged sub-selections of a
    group is not stated).  If a selection set passes L1 and its parent type matches the
    object type, then everything the executor's CollectFields (Exec.collect: any variables,
@@ -61,6 +70,20 @@ Theorem C02_merge_safe_partial : forall S D,
     oc_name o1 = oc_name o2 /\ same_args (oc_args o1) (oc_args o2) = true.
 Proof. exact merge_safe_level. Qed.
 Print Assumptions C02_merge_safe_partial.
+
+(* L0, merge safety, recursively (MS, group_entries, sub_entries are defined in
+   Proofs/ValidateMerge.v).  For a selection set that passes L1 and every depth n: whatever
+   CollectFields groups under one response key for an object type has one field name and
+   equal arguments, and the same holds again for the merged sub-selections of every group,
+   collected for any object type obj' (the sets given to CollectFields there may be any
+   sets whose expanded fields are sub-selection fields of the group's entries and whose
+   parent type matches obj' -- in a valid schema the runtime type of a field matches the
+   static type of the field on every parent the entries were written under). *)
+Theorem C02_merge_safe : forall S D,
+  NoDup (map fr_name (d_frags D)) ->
+  forall n (s : fset) obj, L1 S D (base2 S) s -> MS S D n (EF S D s) obj.
+Proof. exact merge_safe_set. Qed.
+Print Assumptions C02_merge_safe.
 
 (* Simple rules: the rule's model reports an error exactly when the rule is violated. *)
 Theorem C02_rule_iff_unique_operation_names : forall W,
@@ -186,6 +209,11 @@ Theorem C02_rule_iff_known_type_names : forall S W,
   rule_known_type_names S W <> [] <-> Violates_known_type_names S W.
 Proof. exact known_type_names_iff. Qed.
 Print Assumptions C02_rule_iff_known_type_names.
+
+Theorem C02_rule_iff_unique_input_field_names : forall S W,
+  rule_unique_input_field_names S W <> [] <-> Violates_unique_input_field_names S W.
+Proof. exact unique_input_field_names_iff. Qed.
+Print Assumptions C02_rule_iff_unique_input_field_names.
 
 (* ---- non-vacuity ---- *)
 Definition exS : schema :=
